@@ -1355,7 +1355,7 @@ def canon_call(body, c, args, site):
         return ("iter", a0, name)
     if krate == "microstack" and name == "into_iter" and len(args) == 1:
         return ("iter", a0, "iter")
-    if name in ("keys", "values", "drain", "chars", "split", "bytes", "char_indices") and len(args) >= 1 and \
+    if name in ("keys", "values", "drain", "chars", "split", "bytes", "char_indices", "into_keys", "into_values", "values_mut") and len(args) >= 1 and \
             krate in ("emap", "micromap", "microstack", "core", "alloc", "std"):
         return ("iter", a0, name) if len(args) == 1 else ("iter", a0, name, tuple(args[1:]))
     if decl == "std::iter::Iterator::next":
